@@ -337,6 +337,17 @@ func (e *c04Exec) subRun(z zoneCfg) (out []string, sdig string, infra string) {
 					infra = got.Outcome
 					return
 				}
+				if got.Stale != "" {
+					e.violate("input-currency", "input-change-ignored", fmt.Sprintf("client %d op %d (%s %q): %s", ci, oi, op.Kind, c.Programs[op.Prog].Src, got.Stale))
+				}
+				// a result belongs to the caller once it is returned: later evaluations must not rewrite it
+				if got.raw != nil {
+					v.Stats.probe("result-stability-checked")
+					if now := canonCollection(in.nodeIdx, got.raw); now != got.Outcome {
+						e.violate("result-stability", "result-changed-after-return", fmt.Sprintf("client %d op %d (%s %q): the collection Evaluate returned was %s when it returned and is %s after the other evaluations of the run",
+							ci, oi, op.Kind, c.Programs[op.Prog].Src, short(got.Outcome, 300), short(now, 300)))
+					}
+				}
 				if *fNoRef {
 					continue
 				}
